@@ -763,6 +763,29 @@ func (ex *Exec) applyContract(con *Contract, cname string, names []string, typs 
 			panicConds = append(panicConds, v.T)
 		}
 	}
+	if ex.con != nil && ex.curFrame != nil && ex.curFrame.top {
+		short := cname
+		if k2 := strings.LastIndex(cname, "."); k2 >= 0 {
+			short = cname[k2+1:]
+		}
+		ns := 0
+		for _, cl := range ex.con.Clauses {
+			if cl.Kind != "site" || (cl.Callee != short && cl.Callee != cname) {
+				continue
+			}
+			ns++
+			v, err := env.Eval(cl.E)
+			if err != nil {
+				ex.fail("site %s: %v", cl.Callee, err)
+			}
+			label := fmt.Sprintf("%s.%d", short, ns)
+			if cl.Name != "" {
+				label = short + "." + cl.Name
+			}
+			ex.oblige("site", label, reach, v.T, cl.Src)
+			ex.assume(Implies(reach, v.T))
+		}
+	}
 	if hasPanics {
 		pc := Or(panicConds...)
 		if pc != False {
@@ -941,6 +964,9 @@ func (ex *Exec) extern(fn *ssa.Function, args []*Val, st *State, reach *Term) *V
 		var ts []*Term
 		for _, a := range args {
 			ts = append(ts, a.T)
+		}
+		if name == "Pow" {
+			return &Val{T: PowTerm(ts[0], ts[1])}
 		}
 		if res.Len() == 1 {
 			return &Val{T: App(strings.ToLower(name), V.sortOf(res.At(0).Type()), ts...)}
